@@ -53,17 +53,19 @@
 // # Determinism
 //
 // event.TypeMux.AsyncPost starts one goroutine per event and delivers on an unbuffered channel. The driver owns the
-// mux and the only subscription, runs the call on the caller's goroutine, and then receives until every posting
-// goroutine has finished (the number of live goroutines is back at its value before the call; nothing sleeps and no
-// timeout decides anything). The order in which the events of ONE call arrive is scheduler-dependent and therefore
-// not reported: Events are sorted canonically. The driver must be used from one goroutine, and the caller must not
-// start or stop goroutines of its own during a call.
+// mux and the only subscription, runs the call on the caller's goroutine, and then receives until no goroutine of the
+// process is inside TypeMux.AsyncPost / Post (or the Voter's eventLoop) any more: the goroutine stacks are inspected
+// (runtime.Stack), so goroutines of other origin that come and go (database background work, process waits) cannot
+// end the drain early or late; nothing sleeps and no timeout decides anything. The order in which the events of ONE
+// call arrive is scheduler-dependent and therefore not reported: Events are sorted canonically. The driver must be
+// used from one goroutine, and only one driver may be active in a process at a time.
 //
 // Blocks: VerifBlock(hash) makes a block whose header Extra carries the abstract 32-byte hash the script uses for it;
 // CommitEvents are reported with that hash (VerifBlockHash).
 package ucon
 
 import (
+	"bytes"
 	"crypto/ecdsa"
 	"fmt"
 	"math/big"
@@ -320,7 +322,6 @@ func (d *VerifVoter) CrashAtPut(n int, after bool) {
 }
 
 func (d *VerifVoter) run(f func()) (st VerifStep) {
-	base := runtime.NumGoroutine()
 	d.DB.Puts = 0
 	d.DB.PutLog = d.DB.PutLog[:0]
 	func() {
@@ -336,7 +337,7 @@ func (d *VerifVoter) run(f func()) (st VerifStep) {
 		f()
 	}()
 	st.Puts = d.DB.Puts
-	st.Events = d.drain(base)
+	st.Events = d.drain()
 	d.DB.armedAt = 0
 	if st.Crashed || st.Panic != "" {
 		d.Restart()
@@ -345,7 +346,22 @@ func (d *VerifVoter) run(f func()) (st VerifStep) {
 }
 
 // drain receives until every goroutine started by AsyncPost during the call has delivered and exited.
-func (d *VerifVoter) drain(base int) []VerifEvent {
+var verifStackBuf = make([]byte, 1<<16)
+
+// verifPostsInFlight reports whether any goroutine is still posting an event (created by or running inside
+// TypeMux.AsyncPost, which includes goroutines that have not been scheduled yet) or running a Voter's eventLoop.
+func verifPostsInFlight() bool {
+	for {
+		n := runtime.Stack(verifStackBuf, true)
+		if n < len(verifStackBuf) {
+			b := verifStackBuf[:n]
+			return bytes.Contains(b, []byte("TypeMux).AsyncPost")) || bytes.Contains(b, []byte("Voter).eventLoop"))
+		}
+		verifStackBuf = make([]byte, 2*len(verifStackBuf))
+	}
+}
+
+func (d *VerifVoter) drain() []VerifEvent {
 	var evs []VerifEvent
 	for {
 		select {
@@ -354,7 +370,7 @@ func (d *VerifVoter) drain(base int) []VerifEvent {
 				evs = append(evs, verifDecode(obj.Data))
 			}
 		default:
-			if runtime.NumGoroutine() <= base {
+			if !verifPostsInFlight() {
 				sort.Slice(evs, func(i, j int) bool { return evs[i].String() < evs[j].String() })
 				return evs
 			}
@@ -632,7 +648,6 @@ func NewVerifServer(d *VerifVoter, headRound uint64) *VerifServer {
 func (sv *VerifServer) SetVoter(d *VerifVoter) { sv.S.voter = d.V }
 
 func (sv *VerifServer) collect(f func()) []ContextChangeEvent {
-	base := runtime.NumGoroutine()
 	f()
 	var out []ContextChangeEvent
 	for {
@@ -644,7 +659,7 @@ func (sv *VerifServer) collect(f func()) []ContextChangeEvent {
 				}
 			}
 		default:
-			if runtime.NumGoroutine() <= base {
+			if !verifPostsInFlight() {
 				sv.S.timer.Pause() // the timers created by startTimer must never fire into the harness
 				return out
 			}
